@@ -21,7 +21,7 @@ def run(s):
     s.undecided_part("evec_sort: that a permuted, re-phased, <= 5 %-perturbed unitary basis has the dominant-overlap structure the loop-rule obligation assumes "
                      "(A-DOM, Cauchy-Schwarz; stated, exercised by the bounded run), the dimension check in front of the loop (enumerated sizes only), the "
                      "optional filter / threshold arguments")
-    s.undecided_part("matdyn file loader (fixed-column string parsing): bounded only")
+    s.undecided_part("matdyn file loader: the order of the lines consumed and float() of the printed tokens are bounded only (regular expressions and column slices are discharged)")
 
     def sym_case(N, M, tag=""):
         a = numpy.array([[Sc(z3.Real("a%s_%d_%d" % (tag, i, j))) for j in range(3 * N)] for i in range(M)], dtype=object)
@@ -131,10 +131,11 @@ def run(s):
     s.oblige("C20.disp2eig.rejects_dimension_mismatch", rejects, [D2E], kind="finite")
 
     sort_loop_rule(s)
+    load_lemmas(s)
     bounded_d2e(s, d2e)
     bounded_sort(s)
     bounded_load(s)
-    s.min_obligations = 6
+    s.min_obligations = 9
     s.required_names = ["C20.evec_sort.loop_rule(all dimensions)", "C20.disp2eig.formula_and_frame"]
 
 
@@ -507,6 +508,56 @@ def bounded_sort(s):
                       "perturbation <= 5 %%), dimension mismatches; seed %d" % (n, s.seed), evals, evals, fails, ["evec_sort.evec_sort"])
 
 
+# ----------------------------------------------------------------------------------------------------------------------
+# evec_load: the two regular expressions of the reader over ALL lines of matdyn's layout (vf/regauto.py), the fixed-column slices of the vector lines
+Q_LINE_SPEC = r"q = +(-?[0-9]+\.[0-9]{4}) +(-?[0-9]+\.[0-9]{4}) +(-?[0-9]+\.[0-9]{4})"                                        # ' q = ' 3F12.4, |q| < 1e6, stripped
+MODE_LINE_SPEC = r"freq \( *([0-9]+)\) = +(-?[0-9]+\.[0-9]{6}) \[THz\] = +(-?[0-9]+\.[0-9]{6}) \[cm-1\]"                      # 'freq (' I5 ') =' F15.6 ' [THz] =' F15.6 ' [cm-1]'
+
+
+def load_lemmas(s):
+    import re as _re
+    from props import C17
+    el = importlib.import_module("cij.misc.evec_load")
+    s.assume("A-MATDYN: matdyn.x writes ' q = ' 3F12.4, '     freq (' I5 ') =' F15.6 ' [THz] =' F15.6 ' [cm-1]' and ' (' 3(F10.6, 1X, F10.6, 3X) ')' lines (the layout of "
+             "tests/data/pwscf.eig and of the rendered files of the bounded run)", "A-RE: CPython's re returns the highest-priority successful path (cross-checked every run)")
+    s.trust("vf/regauto.py (regex -> ordered tagged automata, subset construction)")
+    for label, rx, spec in (("q-point line", getattr(el, "Q_COORDS_REGEX", None), Q_LINE_SPEC), ("mode line", getattr(el, "MODE_INDEX_REGEX", None), MODE_LINE_SPEC)):
+        def ob(rx=rx, spec=spec, label=label):
+            if rx is None:
+                raise core.OutsideSubset("the reader no longer has a module-level pattern for the %s" % label)
+            pattern = rx.pattern if hasattr(rx, "pattern") else rx
+            if getattr(rx, "flags", _re.UNICODE) not in (_re.UNICODE, 0):
+                raise core.OutsideSubset("regex flags on the %s pattern" % label)
+            return C17.ob_regex_lemma(pattern, spec, None, "evec_load, %s" % label, replay_fn=C17.native_search(pattern, spec))
+        s.oblige("C20.evec_load.regex[%s]" % label, ob, ["evec_load._read_q_points" if label.startswith("q") else "evec_load._read_modes"],
+                 fallback=lambda: {"reproduced": False, "note": "bounded run C20.evec_load.matdyn_layout decides"})
+
+    def slices():
+        """[F] the six constant slices of _read_vecs against the stripped vector line '(' 3(F10.6, 1X, F10.6, 3X) ')': for every component with |x| < 10 (unit-norm
+        eigenvectors) the first column of its F10.6 field is blank, so slice [a:b] = the field without that blank plus the blank that follows: float() of it is the value"""
+        import ast, inspect, textwrap
+        tree = ast.parse(textwrap.dedent(inspect.getsource(el._read_vecs)))
+        sl = []
+        for n in ast.walk(tree):
+            if isinstance(n, ast.Subscript) and isinstance(n.slice, ast.Slice) and isinstance(n.slice.lower, ast.Constant) and isinstance(n.slice.upper, ast.Constant):
+                sl.append((n.slice.lower.value, n.slice.upper.value))
+        # stripped line: '(' at column 0, then per component: F10.6 (10 columns), 1 blank, F10.6, 3 blanks
+        fields, col = [], 1
+        for comp in range(3):
+            fields.append((col, col + 10)); col += 11
+            fields.append((col, col + 10)); col += 13
+        if len(sl) != 6:
+            raise core.OutsideSubset("_read_vecs has %d constant slices" % len(sl))
+        for (a, b), (fa, fb) in zip(sorted(sl), fields):
+            # the slice must contain columns fa+1 .. fb-1 (a number of at most 9 characters right-justified in 10) and nothing of a neighbouring number
+            if not (fa <= a <= fa + 1 and fb <= b <= fb + 1):
+                return core.refuted("finite", "slice [%d:%d] does not cover the F10.6 field at columns %d..%d of the stripped vector line" % (a, b, fa, fb - 1),
+                                    witness_id="slice:%d" % a, replay={"reproduced": True, "slices": sorted(sl), "fields": fields})
+        return core.proved("finite", "the six slices %s read the six F10.6 fields %s of the stripped vector line (values |x| < 10)" % (sorted(sl), fields))
+    s.oblige("C20.evec_load.vector_slices_cover_fields", slices, ["evec_load._read_vecs"], kind="finite",
+             fallback=lambda: {"reproduced": False, "note": "bounded run C20.evec_load.matdyn_layout decides"})
+
+
 def render_eig(qs, modes):
     lines = []
     for q, ms in zip(qs, modes):
@@ -515,13 +566,25 @@ def render_eig(qs, modes):
             lines.append("     freq (%5d) = %14.6f [THz] = %14.6f [cm-1]" % (k + 1, thz, cm1))
             for a in range(len(vec) // 3):
                 c = vec[3 * a:3 * a + 3]
-                lines.append(" ( %10.6f %10.6f   %10.6f %10.6f   %10.6f %10.6f   )" % (c[0].real, c[0].imag, c[1].real, c[1].imag, c[2].real, c[2].imag))
+                # matdyn's layout (1x,'(',3(f10.6,1x,f10.6,3x),')'), as in tests/data/pwscf.eig: the first F10.6 field starts right after the parenthesis
+                lines.append(" (%10.6f %10.6f   %10.6f %10.6f   %10.6f %10.6f   )" % (c[0].real, c[0].imag, c[1].real, c[1].imag, c[2].real, c[2].imag))
         lines.append(" " + "*" * 74)
     return "\n".join(lines) + "\n"
 
 
 def bounded_load(s):
     el = importlib.import_module("cij.misc.evec_load")
+    # the renderer reproduces the shipped matdyn file line for line (engine self-check of the layout the run relies on)
+    try:
+        ref = [ln for ln in open(os.path.join(core.REPO, "tests/data/pwscf.eig")).read().split("\n")][:8]
+        mine = render_eig([(0.0, 0.0, 0.0)], [[(-0.018788, -0.626714, numpy.array([-0.211208, -0.215596, 0.041957, -0.211208, -0.215596, 0.041957]) + 0j)]]).split("\n")
+        want = [ref[2], ref[3], ref[4], ref[5].replace("-0.000000", " 0.000000")]
+        if mine[2:6] != want:
+            s.crosscheck("render_eig vs tests/data/pwscf.eig", 4, [(mine[2:6], want)])
+        else:
+            s.crosscheck("render_eig reproduces the q, separator, freq and vector lines of tests/data/pwscf.eig", 4, [])
+    except OSError:
+        pass
     rnd = numpy.random.RandomState(s.seed + 2)
     # the layout counts of the property's quantifier (1-6 q-points, 3-60 modes) are a finite space: all 120 pairs on every run (values random)
     pairs = [(nq, nat) for nq in range(1, 7) for nat in range(1, 21)] * (1 if s.tier == "quick" else 5)
@@ -585,7 +648,8 @@ MANIFEST = {
     "engine": "symnp", "category": "other",
     "technique": "contract-based deductive verification of evec_disp2eig (real function on object arrays of symbolic reals, z3 NRA, lemmas for unit "
                  "norm and basis restoration, frame) and of evec_sort (Hoare loop rule: the function's own prefix / loop body / suffix executed on a matrix of "
-                 "symbolic dimension, invariant premises by z3, counting lemmas by Lean); bounded run-time contracts for evec_sort and evec_load",
+                 "symbolic dimension, invariant premises by z3, counting lemmas by Lean) and of evec_load's regular expressions (tagged-automata inclusion over all lines of the "
+                 "file layout); bounded run-time contracts for evec_sort and evec_load",
     "text": "evec_disp2eig is executed by real numpy on symbolic displacement matrices and masses (sizes (N,M) in {(1,1),(1,3),(2,2),(2,6)}, values "
             "unbounded): every entry is proved to be a_ij sqrt(m_j)/sqrt(sum_j a_ij^2 m_j) on every value-dependent path, the input is not written, "
             "width != 3N raises; lemmas over that contract: rows have unit norm, and displacement vectors lambda_i u_i/sqrt(m) of an orthonormal basis "
@@ -594,8 +658,12 @@ MANIFEST = {
             "overlap matrix of symbolic dimension n (entries in an abstract normed field, so real and complex); initialisation, preservation and exit "
             "premises of the invariant are discharged by z3 for every n, the ghost counter by three Lean lemmas; post: result[i] = target_arr[pi(i)] "
             "for the dominant-overlap bijection pi. Bounded as well: all permutations for d <= 4, random d <= 60, phases, 5 % perturbation, dimension "
-            "mismatches rejected; evec_load returns the printed values of rendered files.",
+            "mismatches rejected. evec_load: the reader's two regular expressions are proved (tagged-automata inclusion over ALL strings) to match at position 0 and capture "
+            "exactly the printed tokens of every q-point line and every mode line of matdyn's layout; the six constant slices of the vector lines are checked against the "
+            "F10.6 columns of the stripped line; bounded: every (q-points, modes) layout of the quantifier rendered (the renderer reproduces the shipped file line for line) "
+            "and read back, also right after the same path held other values.",
     "note": "For evec_sort the step from 'permuted, re-phased, 5 %-perturbed unitary basis' to the dominance precondition is a stated lemma (A-DOM), the "
-            "dimension check in front of the loop is only enumerated, argmax / unravel_index / matmul are contract stubs. The fixed-column file loader is "
-            "outside the deductive engines: bounded stand-in only (12 / 300 files; 40+33 / 2000+33 sort cases, 30 / 1500 conversion cases).",
+            "dimension check in front of the loop is only enumerated, argmax / unravel_index / matmul are contract stubs. The loader's line STRUCTURE (which line "
+            "follows which) and float() of the printed tokens are bounded only (120 / 600 files; 59+33 / 2006+33 sort cases, 30 / 1500 conversion cases); matdyn's layout is an "
+            "assumption (A-MATDYN).",
 }
